@@ -1,2142 +1,21 @@
 // C05 correspondence harness: drives the real fcppt templates with an instrumented element type and prints the
 // event abstraction described in lean/FcpptModel/Drv/C05.lean:
 //   t=<tag> r=<slots> a0=<slots> ... cp=<ids copied> mv=<ids moved out of argument objects> ram=<ids touched after move>
-#include "common/vh.hpp"
-
-#include <fcppt/function_impl.hpp>
-#include <fcppt/move_clear.hpp>
-#include <fcppt/move_if.hpp>
-#include <fcppt/move_if_rvalue.hpp>
-#include <fcppt/algorithm/fold.hpp>
-#include <fcppt/algorithm/fold_break.hpp>
-#include <fcppt/algorithm/map.hpp>
-#include <fcppt/algorithm/map_concat.hpp>
-#include <fcppt/algorithm/map_optional.hpp>
-#include <fcppt/algorithm/reverse.hpp>
-#include <fcppt/container/get_or_insert.hpp>
-#include <fcppt/container/get_or_insert_with_result.hpp>
-#include <fcppt/container/join.hpp>
-#include <fcppt/container/make.hpp>
-#include <fcppt/container/make_move_range.hpp>
-#include <fcppt/container/pop_back.hpp>
-#include <fcppt/container/pop_front.hpp>
-#include <fcppt/either/apply.hpp>
-#include <fcppt/either/bind.hpp>
-#include <fcppt/either/failure_opt.hpp>
-#include <fcppt/either/first_success.hpp>
-#include <fcppt/either/from_optional.hpp>
-#include <fcppt/either/join.hpp>
-#include <fcppt/either/map.hpp>
-#include <fcppt/either/map_failure.hpp>
-#include <fcppt/either/match.hpp>
-#include <fcppt/either/object.hpp>
-#include <fcppt/either/sequence.hpp>
-#include <fcppt/either/success_opt.hpp>
-#include <fcppt/array/from_range.hpp>
-#include <fcppt/array/get.hpp>
-#include <fcppt/array/init.hpp>
-#include <fcppt/array/join.hpp>
-#include <fcppt/array/map.hpp>
-#include <fcppt/array/object.hpp>
-#include <fcppt/array/push_back.hpp>
-#include <fcppt/record/element.hpp>
-#include <fcppt/record/get.hpp>
-#include <fcppt/record/make_label.hpp>
-#include <fcppt/record/map.hpp>
-#include <fcppt/record/multiply_disjoint.hpp>
-#include <fcppt/record/object.hpp>
-#include <fcppt/record/permute.hpp>
-#include <fcppt/tuple/concat.hpp>
-#include <fcppt/tuple/get.hpp>
-#include <fcppt/tuple/init.hpp>
-#include <fcppt/tuple/map.hpp>
-#include <fcppt/tuple/object.hpp>
-#include <fcppt/tuple/push_back.hpp>
-#include <fcppt/variant/apply.hpp>
-#include <fcppt/variant/match.hpp>
-#include <fcppt/variant/object.hpp>
-#include <fcppt/variant/to_optional.hpp>
-#include <fcppt/container/grid/apply.hpp>
-#include <fcppt/container/grid/dim.hpp>
-#include <fcppt/container/grid/map.hpp>
-#include <fcppt/container/grid/object.hpp>
-#include <fcppt/container/grid/pos.hpp>
-#include <fcppt/container/grid/resize.hpp>
-#include <fcppt/container/tree/map.hpp>
-#include <fcppt/container/tree/object.hpp>
-#include <fcppt/no_init.hpp>
-#include <fcppt/string.hpp>
-#include <fcppt/args_vector.hpp>
-#include <fcppt/options/active_value.hpp>
-#include <fcppt/options/default_value.hpp>
-#include <fcppt/options/flag.hpp>
-#include <fcppt/options/inactive_value.hpp>
-#include <fcppt/options/long_name.hpp>
-#include <fcppt/options/option.hpp>
-#include <fcppt/options/optional_help_text.hpp>
-#include <fcppt/options/optional_short_name.hpp>
-#include <fcppt/options/parse_context.hpp>
-#include <fcppt/options/parse_error.hpp>
-#include <fcppt/options/result_of.hpp>
-#include <fcppt/options/state.hpp>
-#include <fcppt/options/state_with_value.hpp>
-#include <fcppt/parse/basic_char.hpp>
-#include <fcppt/parse/make_convert.hpp>
-#include <fcppt/parse/parse_string.hpp>
-#include <fcppt/parse/operators/repetition.hpp>
-#include <fcppt/parse/operators/sequence.hpp>
-#include <fcppt/optional/alternative.hpp>
-#include <fcppt/optional/apply.hpp>
-#include <fcppt/optional/bind.hpp>
-#include <fcppt/optional/cat.hpp>
-#include <fcppt/optional/combine.hpp>
-#include <fcppt/optional/filter.hpp>
-#include <fcppt/optional/from.hpp>
-#include <fcppt/optional/join.hpp>
-#include <fcppt/optional/map.hpp>
-#include <fcppt/optional/object.hpp>
-#include <fcppt/optional/sequence.hpp>
-#include <fcppt/optional/to_container.hpp>
-
-#include <algorithm>
-#include <deque>
-#include <map>
-#include <stdexcept>
-#include <string>
-#include <type_traits>
-#include <utility>
-#include <vector>
+// The operations live in the family units harness/c05_{alg,alg2,opt,eith,tup,rec,grid,tree,opts,parse}.cpp (compiled in parallel);
+// harness/c05_common.hpp holds the instrumented element type, the user's functions and the protocol helpers.
+#include "c05_common.hpp"
 
 namespace
 {
-// ---------------------------------------------------------------- the instrumented element type
+using namespace c05;
 
-struct event_log
-{
-  std::vector<int> cp, mv, ram;
-  void clear()
-  {
-    cp.clear();
-    mv.clear();
-    ram.clear();
-  }
-};
-event_log g_log;
-
-// identity + state; `orig` marks the objects the harness passed in as (part of) an argument and is not propagated.
-template <bool Copyable>
-struct tok_t
-{
-  static constexpr bool copyable = Copyable;
-  int id;
-  bool live;
-  bool orig;
-
-  explicit tok_t(int const _id) noexcept : id{_id}, live{true}, orig{false} {}
-  // only for fcppt::extract_from_string (instantiated by options::option::parse, never executed here)
-  explicit tok_t(fcppt::no_init const &) noexcept : id{0}, live{true}, orig{false} {}
-
-  tok_t(tok_t const &_o) requires Copyable : id{_o.id}, live{_o.live}, orig{false}
-  {
-    g_log.cp.push_back(_o.id);
-    if (!_o.live)
-      g_log.ram.push_back(_o.id);
-  }
-  tok_t(tok_t &&_o) noexcept : id{_o.id}, live{_o.live}, orig{false} { _o.moved_out(); }
-  tok_t &operator=(tok_t const &_o) requires Copyable
-  {
-    if (this != &_o)
-    {
-      g_log.cp.push_back(_o.id);
-      if (!_o.live)
-        g_log.ram.push_back(_o.id);
-      id = _o.id;
-      live = _o.live;
-    }
-    return *this;
-  }
-  tok_t &operator=(tok_t &&_o) noexcept
-  {
-    if (this != &_o)
-    {
-      id = _o.id;
-      live = _o.live;
-      _o.moved_out();
-    }
-    return *this;
-  }
-  ~tok_t() = default;
-
-  // every use of the payload goes through here
-  int read() const
-  {
-    if (!live)
-      g_log.ram.push_back(id);
-    return id;
-  }
-  // what the user's function does with an lvalue: read it and make a new value from it
-  tok_t derive(int const _k) const { return tok_t{read() + 100 * _k}; }
-
-  friend bool operator==(tok_t const &_a, tok_t const &_b) { return _a.read() == _b.read(); }
-  friend bool operator!=(tok_t const &_a, tok_t const &_b) { return !(_a == _b); }
-  friend bool operator<(tok_t const &_a, tok_t const &_b) { return _a.read() < _b.read(); }
-
-private:
-  void moved_out() noexcept
-  {
-    if (orig)
-      g_log.mv.push_back(id);
-    if (!live)
-      g_log.ram.push_back(id);
-    live = false;
-  }
-};
-
-template <typename Ch, typename Tr, bool C>
-std::basic_ostream<Ch, Tr> &operator<<(std::basic_ostream<Ch, Tr> &_s, tok_t<C> const &_t)
-{
-  return _s << _t.read();
-}
-template <typename Ch, typename Tr, bool C>
-std::basic_istream<Ch, Tr> &operator>>(std::basic_istream<Ch, Tr> &_s, tok_t<C> &_t)
-{
-  return _s >> _t.id;
-}
-
-using Tok = tok_t<true>;
-using MTok = tok_t<false>;
-static_assert(std::is_copy_constructible_v<Tok> && std::is_nothrow_move_constructible_v<Tok>);
-static_assert(!std::is_copy_constructible_v<MTok> && !std::is_copy_assignable_v<MTok> && std::is_nothrow_move_constructible_v<MTok>);
-
-// ---------------------------------------------------------------- the user's functions
-
-// identity on identities: an rvalue is moved through, an lvalue is read and a new value derived from it
-struct thru
-{
-  template <typename U>
-  std::remove_cvref_t<U> operator()(U &&_u) const
-  {
-    if constexpr (std::is_lvalue_reference_v<U>)
-      return _u.derive(1);
-    else
-      return std::remove_cvref_t<U>(std::move(_u));
-  }
-};
-
-struct bad_op
-{
-};
-
-// ---------------------------------------------------------------- protocol
-
-struct arg_t
-{
-  char cat;
-  std::vector<int> ids;
-};
-
-struct line_t
-{
-  bool mo;
-  std::vector<arg_t> args;
-  std::vector<int> par;
-  std::size_t n(std::size_t const a) const { return args.at(a).ids.size(); }
-  char cat(std::size_t const a) const { return args.at(a).cat; }
-};
-
-void need(bool const _c)
-{
-  if (!_c)
-    throw bad_op{};
-}
-
-template <typename T>
-std::string slot(T const &_t)
-{
-  return (_t.live ? "" : "~") + std::to_string(_t.id);
-}
-
-struct slots_t
-{
-  std::string s;
-  template <typename T>
-  void add(T const &_t)
-  {
-    if (!s.empty())
-      s += ',';
-    s += slot(_t);
-  }
-  template <typename R>
-  void add_range(R const &_r)
-  {
-    for (auto const &e : _r)
-      add(e);
-  }
-  std::string str() const { return s.empty() ? "-" : s; }
-};
-
-template <typename R>
-std::string slots(R const &_r)
-{
-  slots_t s;
-  s.add_range(_r);
-  return s.str();
-}
-
-template <typename T>
-std::string map_slots(std::map<int, T> const &_m)
-{
-  slots_t s;
-  for (auto const &e : _m)
-    s.add(e.second);
-  return s.str();
-}
-
-std::string ids(std::vector<int> v, bool const _dedup)
-{
-  std::sort(v.begin(), v.end());
-  if (_dedup)
-    v.erase(std::unique(v.begin(), v.end()), v.end());
-  return vh::join(v);
-}
-
-std::string finish(std::string const &_tag, std::string const &_res, std::vector<std::string> const &_args, event_log const &_log)
-{
-  std::string r{"t=" + _tag + " r=" + _res};
-  for (std::size_t i = 0; i < _args.size(); ++i)
-    r += " a" + std::to_string(i) + "=" + _args[i];
-  r += " cp=" + ids(_log.cp, true) + " mv=" + ids(_log.mv, false) + " ram=" + ids(_log.ram, true);
-  return r;
-}
-
-// ---------------------------------------------------------------- arguments
-
-template <typename T>
-std::vector<T> mk_vec(arg_t const &_a)
-{
-  std::vector<T> v;
-  v.reserve(32); // headroom: a join into an rvalue first argument must not reallocate the caller's objects
-  for (int const i : _a.ids)
-    v.emplace_back(i);
-  return v;
-}
-
-template <typename T>
-std::deque<T> mk_deque(arg_t const &_a)
-{
-  std::deque<T> v;
-  for (int const i : _a.ids)
-    v.emplace_back(i);
-  return v;
-}
-
-template <typename T>
-std::map<int, T> mk_map(arg_t const &_a)
-{
-  std::map<int, T> m;
-  int k = 0;
-  for (int const i : _a.ids)
-    m.emplace(k++, i);
-  return m;
-}
-
-// mark the element objects of a finished argument as the caller's (done in place, after the last move of the container)
-template <bool C>
-void mark(tok_t<C> &_t)
-{
-  _t.orig = true;
-}
-template <typename T>
-void mark(fcppt::optional::object<T> &_o)
-{
-  if (_o.has_value())
-    mark(_o.get_unsafe());
-}
-template <typename T>
-void mark(std::vector<T> &_v)
-{
-  for (auto &e : _v)
-    mark(e);
-}
-template <typename T>
-void mark(std::deque<T> &_v)
-{
-  for (auto &e : _v)
-    mark(e);
-}
-template <typename T>
-void mark(std::map<int, T> &_m)
-{
-  for (auto &e : _m)
-    mark(e.second);
-}
-
-// Calls f with the container in the value category named by cat. LvOk = false: the lvalue instantiation needs a copy
-// constructor the element type does not have (the model's program contains a copy there).
-template <bool LvOk, typename C, typename F>
-auto with_cat(char const _cat, C &_c, F const &_f) -> decltype(_f(std::move(_c)))
-{
-  switch (_cat)
-  {
-  case 'r':
-    return _f(std::move(_c));
-  case 'l':
-    if constexpr (LvOk)
-      return _f(_c);
-    else
-      throw bad_op{};
-  case 'c':
-    if constexpr (LvOk)
-      return _f(std::as_const(_c));
-    else
-      throw bad_op{};
-  default:
-    throw bad_op{};
-  }
-}
-
-#define FWD(x) std::forward<decltype(x)>(x)
-
-template <typename T>
-struct acc
-{
-  T marker;
-  std::vector<T> items;
-};
-
-template <typename T>
-std::string acc_slots(acc<T> const &_a)
-{
-  slots_t s;
-  s.add(_a.marker);
-  s.add_range(_a.items);
-  return s.str();
-}
-
-// ---------------------------------------------------------------- the operations
-
-template <typename T>
-std::string op_algmap(line_t const &L)
-{
-  need(L.args.size() == 1 && L.par.empty());
-  auto v{mk_vec<T>(L.args[0])};
-  mark(v);
-  g_log.clear();
-  std::vector<T> const r{with_cat<true>(L.cat(0), v, [](auto &&c) { return fcppt::algorithm::map<std::vector<T>>(FWD(c), thru{}); })};
-  event_log const log{g_log};
-  return finish("-", slots(r), {slots(v)}, log);
-}
-
-template <typename T>
-std::string op_fold(line_t const &L, bool const _brk)
-{
-  need(L.args.size() == 2 && L.cat(1) == 'r' && L.n(1) == 1 && L.par.size() == (_brk ? 1U : 0U));
-  auto v{mk_vec<T>(L.args[0])};
-  mark(v);
-  acc<T> st{T{L.args[1].ids[0]}, {}};
-  mark(st.marker);
-  g_log.clear();
-  acc<T> const r{with_cat<true>(
-      L.cat(0),
-      v,
-      [&](auto &&c)
-      {
-        if (_brk)
-        {
-          int count{0};
-          int const stop{L.par[0]};
-          return fcppt::algorithm::fold_break(
-              FWD(c),
-              std::move(st),
-              [&count, stop](auto &&e, acc<T> &&s)
-              {
-                s.items.push_back(thru{}(FWD(e)));
-                return std::make_pair(count++ == stop ? fcppt::loop::break_ : fcppt::loop::continue_, std::move(s));
-              });
-        }
-        return fcppt::algorithm::fold(
-            FWD(c),
-            std::move(st),
-            [](auto &&e, acc<T> &&s)
-            {
-              s.items.push_back(thru{}(FWD(e)));
-              return std::move(s);
-            });
-      })};
-  event_log const log{g_log};
-  slots_t sm;
-  sm.add(st.marker);
-  return finish("-", acc_slots(r), {slots(v), sm.str()}, log);
-}
-
-template <typename T>
-std::string op_mapcat(line_t const &L)
-{
-  need(L.args.size() == 1 && L.par.size() == L.n(0));
-  auto v{mk_vec<T>(L.args[0])};
-  mark(v);
-  std::size_t idx{0};
-  g_log.clear();
-  std::vector<T> const r{with_cat<true>(
-      L.cat(0),
-      v,
-      [&](auto &&c)
-      {
-        return fcppt::algorithm::map_concat<std::vector<T>>(
-            FWD(c),
-            [&idx, &L](auto &&e)
-            {
-              static_assert(std::is_lvalue_reference_v<decltype(e)>);
-              std::vector<T> out;
-              int const k{L.par.at(idx++)};
-              e.read();
-              for (int j = 1; j <= k; ++j)
-                out.push_back(e.derive(j));
-              return out;
-            });
-      })};
-  event_log const log{g_log};
-  return finish("-", slots(r), {slots(v)}, log);
-}
-
-template <typename T>
-std::string op_mapopt(line_t const &L)
-{
-  need(L.args.size() == 1 && L.par.size() == L.n(0));
-  auto v{mk_vec<T>(L.args[0])};
-  mark(v);
-  std::size_t idx{0};
-  g_log.clear();
-  std::vector<T> const r{with_cat<true>(
-      L.cat(0),
-      v,
-      [&](auto &&c)
-      {
-        return fcppt::algorithm::map_optional<std::vector<T>>(
-            FWD(c),
-            [&idx, &L](auto &&e)
-            {
-              static_assert(std::is_lvalue_reference_v<decltype(e)>);
-              int const k{L.par.at(idx++)};
-              e.read();
-              return k != 0 ? fcppt::optional::object<T>{e.derive(1)} : fcppt::optional::object<T>{};
-            });
-      })};
-  event_log const log{g_log};
-  return finish("-", slots(r), {slots(v)}, log);
-}
-
-template <typename T>
-std::string op_reverse(line_t const &L)
-{
-  need(L.args.size() == 1 && L.par.empty());
-  auto v{mk_vec<T>(L.args[0])};
-  mark(v);
-  g_log.clear();
-  std::vector<T> const r{with_cat<T::copyable>(L.cat(0), v, [](auto &&c) { return fcppt::algorithm::reverse(FWD(c)); })};
-  event_log const log{g_log};
-  return finish("-", slots(r), {slots(v)}, log);
-}
-
-template <typename T>
-std::string op_join(line_t const &L, std::size_t const _n)
-{
-  need(L.args.size() == _n && L.par.empty());
-  auto a{mk_vec<T>(L.args[0])};
-  mark(a);
-  auto b{mk_vec<T>(L.args[1])};
-  mark(b);
-  arg_t const none{'r', {}};
-  auto c{mk_vec<T>(_n == 3 ? L.args[2] : none)};
-  mark(c);
-  g_log.clear();
-  std::vector<T> const r{with_cat<T::copyable>(
-      L.cat(0),
-      a,
-      [&](auto &&x)
-      {
-        return with_cat<T::copyable>(
-            L.cat(1),
-            b,
-            [&](auto &&y)
-            {
-              if (_n == 2)
-                return fcppt::container::join(FWD(x), FWD(y));
-              return with_cat<T::copyable>(
-                  L.cat(2), c, [&](auto &&z) { return fcppt::container::join(FWD(x), FWD(y), FWD(z)); });
-            });
-      })};
-  event_log const log{g_log};
-  std::vector<std::string> args{slots(a), slots(b)};
-  if (_n == 3)
-    args.push_back(slots(c));
-  return finish("-", slots(r), args, log);
-}
-
-template <typename T>
-std::string op_pop(line_t const &L, bool const _back)
-{
-  need(L.args.size() == 1 && L.cat(0) == 'i' && L.par.empty());
-  std::string arg;
-  g_log.clear();
-  fcppt::optional::object<T> const r{
-      [&]
-      {
-        if (_back)
-        {
-          auto v{mk_vec<T>(L.args[0])};
-          mark(v);
-          g_log.clear();
-          fcppt::optional::object<T> x{fcppt::container::pop_back(v)};
-          arg = slots(v);
-          return x;
-        }
-        auto v{mk_deque<T>(L.args[0])};
-        mark(v);
-        g_log.clear();
-        fcppt::optional::object<T> x{fcppt::container::pop_front(v)};
-        arg = slots(v);
-        return x;
-      }()};
-  event_log const log{g_log};
-  slots_t s;
-  if (r.has_value())
-    s.add(r.get_unsafe());
-  return finish(r.has_value() ? "J" : "N", s.str(), {arg}, log);
-}
-
-template <typename T>
-std::string op_mrmap(line_t const &L)
-{
-  need(L.args.size() == 1 && L.cat(0) == 'r' && L.par.empty());
-  auto v{mk_vec<T>(L.args[0])};
-  mark(v);
-  g_log.clear();
-  std::vector<T> const r{fcppt::algorithm::map<std::vector<T>>(fcppt::container::make_move_range(std::move(v)), thru{})};
-  event_log const log{g_log};
-  return finish("-", slots(r), {slots(v)}, log);
-}
-
-template <typename T>
-std::string op_moveclear(line_t const &L)
-{
-  need(L.args.size() == 1 && L.cat(0) == 'i' && L.par.empty());
-  auto v{mk_vec<T>(L.args[0])};
-  mark(v);
-  g_log.clear();
-  std::vector<T> const r{fcppt::move_clear(v)};
-  event_log const log{g_log};
-  return finish("-", slots(r), {slots(v)}, log);
-}
-
-template <typename T>
-std::string op_goi(line_t const &L, bool const _with_result)
-{
-  need(L.args.size() == 1 && L.cat(0) == 'i' && L.par.size() == 1 && L.par[0] >= 0 && static_cast<std::size_t>(L.par[0]) <= L.n(0));
-  auto m{mk_map<T>(L.args[0])};
-  mark(m);
-  auto const create{[](int) { return T{1000}; }};
-  g_log.clear();
-  std::string tag;
-  if (_with_result)
-  {
-    auto const r{fcppt::container::get_or_insert_with_result(m, L.par[0], create)};
-    tag = "R" + std::to_string(r.element().id) + "/" + (r.inserted() ? "1" : "0");
-  }
-  else
-  {
-    T &r{fcppt::container::get_or_insert(m, L.par[0], create)};
-    tag = "R" + std::to_string(r.id);
-  }
-  event_log const log{g_log};
-  return finish(tag, "-", {map_slots(m)}, log);
-}
-
-// ---------------------------------------------------------------- optional
-
-template <typename T>
-using opt = fcppt::optional::object<T>;
-
-template <typename T>
-opt<T> mk_opt(arg_t const &_a)
-{
-  need(_a.ids.size() <= 1);
-  if (_a.ids.empty())
-    return opt<T>{};
-  return opt<T>{T{_a.ids[0]}};
-}
-
-template <typename T>
-std::string opt_slots(opt<T> const &_o)
-{
-  slots_t s;
-  if (_o.has_value())
-    s.add(_o.get_unsafe());
-  return s.str();
-}
-
-template <typename T>
-std::string opt_tag(opt<T> const &_o)
-{
-  return _o.has_value() ? "J" : "N";
-}
-
-// vector of optionals: the present entries (mask bit 1) carry the identities in order
-template <typename T>
-std::vector<opt<T>> mk_optvec(arg_t const &_a, std::vector<int> const &_mask)
-{
-  std::vector<opt<T>> v;
-  v.reserve(32);
-  std::size_t k{0};
-  for (int const m : _mask)
-  {
-    need(m == 0 || m == 1);
-    if (m == 1)
-    {
-      need(k < _a.ids.size());
-      v.emplace_back(T{_a.ids[k++]});
-    }
-    else
-      v.emplace_back();
-  }
-  need(k == _a.ids.size());
-  return v;
-}
-
-template <typename T>
-std::string optvec_slots(std::vector<opt<T>> const &_v)
-{
-  slots_t s;
-  for (auto const &o : _v)
-    if (o.has_value())
-      s.add(o.get_unsafe());
-  return s.str();
-}
-
-// reads its second argument, moves / derives the first
-struct first_of_two
-{
-  template <typename A, typename B>
-  std::remove_cvref_t<A> operator()(A &&_a, B &&_b) const
-  {
-    _b.read();
-    return thru{}(std::forward<A>(_a));
-  }
-};
-
-template <typename T>
-std::string op_opt1(std::string const &_op, line_t const &L)
-{
-  need(L.args.size() == 1);
-  auto o{mk_opt<T>(L.args[0])};
-  mark(o);
-  auto const par{[&](std::size_t i) { need(L.par.size() > i && (L.par[i] == 0 || L.par[i] == 1)); return L.par[i] == 1; }};
-  g_log.clear();
-  if (_op == "optmap")
-  {
-    need(L.par.empty());
-    opt<T> const r{with_cat<true>(L.cat(0), o, [](auto &&x) { return fcppt::optional::map(FWD(x), thru{}); })};
-    event_log const log{g_log};
-    return finish(opt_tag(r), opt_slots(r), {opt_slots(o)}, log);
-  }
-  if (_op == "optbind")
-  {
-    need(L.par.size() == 1);
-    bool const keep{par(0)};
-    opt<T> const r{with_cat<true>(
-        L.cat(0),
-        o,
-        [keep](auto &&x)
-        {
-          return fcppt::optional::bind(
-              FWD(x),
-              [keep](auto &&e)
-              {
-                e.read();
-                return keep ? opt<T>{thru{}(FWD(e))} : opt<T>{};
-              });
-        })};
-    event_log const log{g_log};
-    return finish(opt_tag(r), opt_slots(r), {opt_slots(o)}, log);
-  }
-  if (_op == "optfrom")
-  {
-    need(L.par.empty());
-    slots_t s;
-    {
-      T const r{with_cat<T::copyable>(L.cat(0), o, [](auto &&x) { return fcppt::optional::from(FWD(x), [] { return T{1000}; }); })};
-      event_log const log{g_log};
-      s.add(r);
-      return finish("-", s.str(), {opt_slots(o)}, log);
-    }
-  }
-  if (_op == "optalt")
-  {
-    need(L.par.size() == 1);
-    bool const has{par(0)};
-    opt<T> const r{with_cat<T::copyable>(
-        L.cat(0), o, [has](auto &&x) { return fcppt::optional::alternative(FWD(x), [has] { return has ? opt<T>{T{1000}} : opt<T>{}; }); })};
-    event_log const log{g_log};
-    return finish(opt_tag(r), opt_slots(r), {opt_slots(o)}, log);
-  }
-  if (_op == "optfilter")
-  {
-    need(L.par.size() == 1);
-    bool const keep{par(0)};
-    opt<T> const r{with_cat<T::copyable>(
-        L.cat(0),
-        o,
-        [keep](auto &&x)
-        {
-          return fcppt::optional::filter(
-              FWD(x),
-              [keep](T const &e)
-              {
-                e.read();
-                return keep;
-              });
-        })};
-    event_log const log{g_log};
-    return finish(opt_tag(r), opt_slots(r), {opt_slots(o)}, log);
-  }
-  if (_op == "opttocont")
-  {
-    need(L.par.empty());
-    std::vector<T> const r{
-        with_cat<T::copyable>(L.cat(0), o, [](auto &&x) { return fcppt::optional::to_container<std::vector<T>>(FWD(x)); })};
-    event_log const log{g_log};
-    return finish("-", slots(r), {opt_slots(o)}, log);
-  }
-  throw bad_op{};
-}
-
-template <typename T>
-std::string op_optjoin(line_t const &L)
-{
-  need(L.args.size() == 1 && L.par.size() == 1 && (L.par[0] == 0 || L.par[0] == 1) && L.n(0) <= 1 && (L.n(0) == 0 || L.par[0] == 1));
-  opt<opt<T>> o{L.par[0] == 1 ? opt<opt<T>>{mk_opt<T>(L.args[0])} : opt<opt<T>>{}};
-  mark(o);
-  g_log.clear();
-  opt<T> const r{with_cat<T::copyable>(L.cat(0), o, [](auto &&x) { return fcppt::optional::join(FWD(x)); })};
-  event_log const log{g_log};
-  slots_t s;
-  if (o.has_value() && o.get_unsafe().has_value())
-    s.add(o.get_unsafe().get_unsafe());
-  return finish(opt_tag(r), opt_slots(r), {s.str()}, log);
-}
-
-template <typename T>
-std::string op_opt2(std::string const &_op, line_t const &L)
-{
-  need(L.args.size() == 2 && L.par.empty());
-  auto a{mk_opt<T>(L.args[0])};
-  mark(a);
-  auto b{mk_opt<T>(L.args[1])};
-  mark(b);
-  g_log.clear();
-  bool const comb{_op == "optcombine"};
-  opt<T> const r{with_cat<T::copyable>(
-      L.cat(0),
-      a,
-      [&](auto &&x)
-      {
-        return with_cat<T::copyable>(
-            L.cat(1),
-            b,
-            [&](auto &&y)
-            {
-              if (comb)
-                return fcppt::optional::combine(FWD(x), FWD(y), first_of_two{});
-              return fcppt::optional::apply(first_of_two{}, FWD(x), FWD(y));
-            });
-      })};
-  event_log const log{g_log};
-  return finish(opt_tag(r), opt_slots(r), {opt_slots(a), opt_slots(b)}, log);
-}
-
-template <typename T>
-std::string op_optvec(std::string const &_op, line_t const &L)
-{
-  need(L.args.size() == 1);
-  auto v{mk_optvec<T>(L.args[0], L.par)};
-  mark(v);
-  g_log.clear();
-  if (_op == "optseq")
-  {
-    opt<std::vector<T>> const r{
-        with_cat<T::copyable>(L.cat(0), v, [](auto &&x) { return fcppt::optional::sequence<std::vector<T>>(FWD(x)); })};
-    event_log const log{g_log};
-    return finish(opt_tag(r), r.has_value() ? slots(r.get_unsafe()) : "-", {optvec_slots(v)}, log);
-  }
-  std::vector<T> const r{with_cat<T::copyable>(L.cat(0), v, [](auto &&x) { return fcppt::optional::cat<std::vector<T>>(FWD(x)); })};
-  event_log const log{g_log};
-  return finish("-", slots(r), {optvec_slots(v)}, log);
-}
-
-// ---------------------------------------------------------------- move_if / move_if_rvalue themselves
-
-template <typename T>
-std::string op_moveif(std::string const &_op, line_t const &L)
-{
-  need(L.args.size() == 1 && L.n(0) == 1 && L.par.size() == 1);
-  T x{L.args[0].ids[0]};
-  mark(x);
-  char const cat{L.cat(0)};
-  int const k{L.par[0]};
-  g_log.clear();
-  // 'l' and 'i' are both a non-const lvalue; 'i' says that the caller asked for the move
-  auto const go{[&](auto _f) -> T
-                {
-                  switch (cat)
-                  {
-                  case 'r':
-                    return T(_f(std::move(x)));
-                  case 'l':
-                  case 'i':
-                    return T(_f(x));
-                  case 'c':
-                    if constexpr (T::copyable)
-                      return T(_f(std::as_const(x)));
-                    else
-                      throw bad_op{};
-                  default:
-                    throw bad_op{};
-                  }
-                }};
-#define MOVE_IF(C) go([](auto &&a) -> decltype(auto) { return fcppt::move_if<C>(FWD(a)); })
-#define MOVE_IF_RV(Ty) go([](auto &&a) -> decltype(auto) { return fcppt::move_if_rvalue<Ty>(FWD(a)); })
-  auto const run{[&]() -> T
-                 {
-                   if (_op == "moveif")
-                   {
-                     need((k == 0 || k == 1) && (cat != 'l' || k == 0) && (cat != 'i' || k == 1));
-                     if (k == 1)
-                       return MOVE_IF(true);
-                     if constexpr (T::copyable)
-                       return MOVE_IF(false);
-                     else
-                     {
-                       need(cat == 'r');
-                       return T(fcppt::move_if<false>(std::move(x)));
-                     }
-                   }
-                   need(k >= 0 && k <= 3 && (cat != 'l' || k <= 1) && (cat != 'i' || k >= 2));
-                   if (k >= 2)
-                     return k == 2 ? MOVE_IF_RV(T) : MOVE_IF_RV(T &&);
-                   if constexpr (T::copyable)
-                     return k == 0 ? MOVE_IF_RV(T &) : MOVE_IF_RV(T const &);
-                   else
-                   {
-                     need(cat == 'r');
-                     return k == 0 ? T(fcppt::move_if_rvalue<T &>(std::move(x))) : T(fcppt::move_if_rvalue<T const &>(std::move(x)));
-                   }
-                 }};
-  T const r{run()};
-  event_log const log{g_log};
-  slots_t sr, sa;
-  sr.add(r);
-  sa.add(x);
-  return finish("-", sr.str(), {sa.str()}, log);
-}
-
-// ---------------------------------------------------------------- container::make (moves out of every argument, by contract)
-
-template <typename T>
-std::string op_contmake(line_t const &L)
-{
-  need(L.args.size() == 2 && L.n(0) == 1 && L.n(1) == 1 && L.par.empty());
-  T a{L.args[0].ids[0]};
-  T b{L.args[1].ids[0]};
-  mark(a);
-  mark(b);
-  auto const ok{[](char c) { return c == 'i' || c == 'r'; }};
-  need(ok(L.cat(0)) && ok(L.cat(1)));
-  g_log.clear();
-  // 'i': a non-const lvalue handed to make (which is documented to move out of it), 'r': an rvalue
-  std::vector<T> const r{
-      L.cat(0) == 'r' ? (L.cat(1) == 'r' ? fcppt::container::make<std::vector<T>>(std::move(a), std::move(b))
-                                         : fcppt::container::make<std::vector<T>>(std::move(a), b))
-                      : (L.cat(1) == 'r' ? fcppt::container::make<std::vector<T>>(a, std::move(b))
-                                         : fcppt::container::make<std::vector<T>>(a, b))};
-  event_log const log{g_log};
-  slots_t sa, sb;
-  sa.add(a);
-  sb.add(b);
-  return finish("-", slots(r), {sa.str(), sb.str()}, log);
-}
-
-// ---------------------------------------------------------------- either
-
-template <typename T>
-struct fail
-{
-  T t;
-  int read() const { return t.read(); }
-  fail derive(int const _k) const { return fail{t.derive(_k)}; }
-};
-
-template <typename T>
-using eith = fcppt::either::object<fail<T>, T>;
-
-template <typename T>
-eith<T> mk_eith(int const _id, int const _side)
-{
-  need(_side == 0 || _side == 1);
-  return _side == 1 ? eith<T>{T{_id}} : eith<T>{fail<T>{T{_id}}};
-}
-
-template <typename T>
-void mark(eith<T> &_e)
-{
-  if (_e.has_success())
-    mark(_e.get_success_unsafe());
-  else
-    mark(_e.get_failure_unsafe().t);
-}
-
-template <typename T>
-T const &eith_tok(eith<T> const &_e)
-{
-  return _e.has_success() ? _e.get_success_unsafe() : _e.get_failure_unsafe().t;
-}
-
-template <typename T>
-std::string eith_slots(eith<T> const &_e)
-{
-  slots_t s;
-  s.add(eith_tok(_e));
-  return s.str();
-}
-
-template <typename T>
-std::string eith_tag(eith<T> const &_e)
-{
-  return _e.has_success() ? "S" : "F";
-}
-
-// fail<T> -> T and T -> T, moving an rvalue through and deriving from an lvalue
-struct to_tok
-{
-  template <typename U>
-  auto operator()(U &&_u) const
-  {
-    if constexpr (requires { _u.t; })
-      return thru{}(fcppt::move_if_rvalue<U>(_u.t));
-    else
-      return thru{}(std::forward<U>(_u));
-  }
-};
-
-template <typename T>
-std::string op_eith1(std::string const &_op, line_t const &L)
-{
-  need(L.args.size() == 1 && L.n(0) == 1 && !L.par.empty());
-  int const side{L.par[0]};
-  auto e{mk_eith<T>(L.args[0].ids[0], side)};
-  mark(e);
-  g_log.clear();
-  if (_op == "eithmap" || _op == "eithmapfail" || _op == "eithbind" || _op == "eithjoinflat")
-  {
-    int const fside{_op == "eithbind" ? (need(L.par.size() == 2), L.par[1]) : (need(L.par.size() == 1), 0)};
-    need(fside == 0 || fside == 1);
-    eith<T> const r{with_cat<T::copyable>(
-        L.cat(0),
-        e,
-        [&](auto &&x)
-        {
-          if (_op == "eithmap")
-            return fcppt::either::map(FWD(x), thru{});
-          if (_op == "eithmapfail")
-            return fcppt::either::map_failure(FWD(x), thru{});
-          return fcppt::either::bind(
-              FWD(x),
-              [fside](auto &&v)
-              {
-                v.read();
-                return fside == 1 ? eith<T>{thru{}(FWD(v))} : eith<T>{fail<T>{thru{}(FWD(v))}};
-              });
-        })};
-    event_log const log{g_log};
-    return finish(eith_tag(r), eith_slots(r), {eith_slots(e)}, log);
-  }
-  if (_op == "eithmatch")
-  {
-    need(L.par.size() == 1);
-    slots_t sr;
-    T const r{with_cat<true>(L.cat(0), e, [](auto &&x) { return fcppt::either::match(FWD(x), to_tok{}, to_tok{}); })};
-    event_log const log{g_log};
-    sr.add(r);
-    return finish("-", sr.str(), {eith_slots(e)}, log);
-  }
-  if (_op == "eithsuccopt")
-  {
-    need(L.par.size() == 1);
-    opt<T> const r{with_cat<T::copyable>(L.cat(0), e, [](auto &&x) { return fcppt::either::success_opt(FWD(x)); })};
-    event_log const log{g_log};
-    return finish(opt_tag(r), opt_slots(r), {eith_slots(e)}, log);
-  }
-  if (_op == "eithfailopt")
-  {
-    need(L.par.size() == 1);
-    opt<fail<T>> const r{with_cat<T::copyable>(L.cat(0), e, [](auto &&x) { return fcppt::either::failure_opt(FWD(x)); })};
-    event_log const log{g_log};
-    slots_t sr;
-    if (r.has_value())
-      sr.add(r.get_unsafe().t);
-    return finish(opt_tag(r), sr.str(), {eith_slots(e)}, log);
-  }
-  throw bad_op{};
-}
-
-template <typename T>
-std::string op_eithfromopt(line_t const &L)
-{
-  need(L.args.size() == 1 && L.par.empty());
-  auto o{mk_opt<T>(L.args[0])};
-  mark(o);
-  g_log.clear();
-  eith<T> const r{with_cat<T::copyable>(
-      L.cat(0), o, [](auto &&x) { return fcppt::either::from_optional(FWD(x), [] { return fail<T>{T{1000}}; }); })};
-  event_log const log{g_log};
-  return finish(eith_tag(r), eith_slots(r), {opt_slots(o)}, log);
-}
-
-template <typename T>
-std::string op_eithjoin(line_t const &L)
-{
-  // par[0]: 0 = F x, 1 = S (F x), 2 = S (S x)
-  need(L.args.size() == 1 && L.n(0) == 1 && L.par.size() == 1 && L.par[0] >= 0 && L.par[0] <= 2);
-  using outer = fcppt::either::object<fail<T>, eith<T>>;
-  int const id{L.args[0].ids[0]};
-  outer e{L.par[0] == 0 ? outer{fail<T>{T{id}}} : outer{mk_eith<T>(id, L.par[0] - 1)}};
-  auto const tok{[](outer &_o) -> T & { return _o.has_failure() ? _o.get_failure_unsafe().t : const_cast<T &>(eith_tok(_o.get_success_unsafe())); }};
-  mark(tok(e));
-  g_log.clear();
-  eith<T> const r{with_cat<T::copyable>(L.cat(0), e, [](auto &&x) { return fcppt::either::join(FWD(x)); })};
-  event_log const log{g_log};
-  slots_t sa;
-  sa.add(tok(e));
-  return finish(eith_tag(r), eith_slots(r), {sa.str()}, log);
-}
-
-template <typename T>
-std::string op_eithapply2(line_t const &L)
-{
-  need(L.args.size() == 2 && L.n(0) == 1 && L.n(1) == 1 && L.par.size() == 2);
-  auto a{mk_eith<T>(L.args[0].ids[0], L.par[0])};
-  auto b{mk_eith<T>(L.args[1].ids[0], L.par[1])};
-  mark(a);
-  mark(b);
-  g_log.clear();
-  eith<T> const r{with_cat<T::copyable>(
-      L.cat(0),
-      a,
-      [&](auto &&x)
-      { return with_cat<T::copyable>(L.cat(1), b, [&](auto &&y) { return fcppt::either::apply(first_of_two{}, FWD(x), FWD(y)); }); })};
-  event_log const log{g_log};
-  return finish(eith_tag(r), eith_slots(r), {eith_slots(a), eith_slots(b)}, log);
-}
-
-template <typename T>
-std::string op_eithseq(line_t const &L)
-{
-  need(L.args.size() == 1 && L.par.size() == L.n(0));
-  std::vector<eith<T>> v;
-  v.reserve(32);
-  for (std::size_t i = 0; i < L.n(0); ++i)
-    v.push_back(mk_eith<T>(L.args[0].ids[i], L.par[i]));
-  for (auto &e : v)
-    mark(e);
-  g_log.clear();
-  using res_t = fcppt::either::object<fail<T>, std::vector<T>>;
-  // only the rvalue instantiation exists: the requires-clause of either::sequence applies value_type to `Source` with its reference
-  need(L.cat(0) == 'r');
-  res_t const r{fcppt::either::sequence<std::vector<T>>(std::move(v))};
-  event_log const log{g_log};
-  slots_t sa, sr;
-  for (auto const &e : v)
-    sa.add(eith_tok(e));
-  if (r.has_success())
-    sr.add_range(r.get_success_unsafe());
-  else
-    sr.add(r.get_failure_unsafe().t);
-  return finish(r.has_success() ? "S" : "F", sr.str(), {sa.str()}, log);
-}
-
-template <typename T>
-std::string op_eithfirst(line_t const &L)
-{
-  need(L.args.empty());
-  std::vector<fcppt::function<eith<T>()>> fs;
-  int k{0};
-  for (int const m : L.par)
-  {
-    need(m == 0 || m == 1);
-    int const id{1000 + k++};
-    fs.push_back(fcppt::function<eith<T>()>{[m, id] { return mk_eith<T>(id, m); }});
-  }
-  g_log.clear();
-  auto const r{fcppt::either::first_success(fs)};
-  event_log const log{g_log};
-  slots_t sr;
-  if (r.has_success())
-    sr.add(r.get_success_unsafe());
-  else
-    for (auto const &f : r.get_failure_unsafe())
-      sr.add(f.t);
-  return finish(r.has_success() ? "S" : "F", sr.str(), {}, log);
-}
-
-// ---------------------------------------------------------------- variant
-
-template <typename T>
-struct w1
-{
-  T t;
-  int read() const { return t.read(); }
-};
-template <typename T>
-struct w2
-{
-  T t;
-  int read() const { return t.read(); }
-};
-
-template <typename T>
-using var3 = fcppt::variant::object<T, w1<T>, w2<T>>;
-
-template <typename T>
-var3<T> mk_var(int const _id, int const _alt)
-{
-  need(_alt >= 0 && _alt <= 2);
-  return _alt == 0 ? var3<T>{T{_id}} : _alt == 1 ? var3<T>{w1<T>{T{_id}}} : var3<T>{w2<T>{T{_id}}};
-}
-
-template <typename T>
-T &var_tok(var3<T> &_v)
-{
-  return fcppt::variant::match(
-      _v, [](T &t) -> T & { return t; }, [](w1<T> &w) -> T & { return w.t; }, [](w2<T> &w) -> T & { return w.t; });
-}
-
-template <typename T>
-std::string var_slots(var3<T> &_v)
-{
-  slots_t s;
-  s.add(var_tok(_v));
-  return s.str();
-}
-
-template <typename T>
-std::string op_var(std::string const &_op, line_t const &L)
-{
-  need(L.args.size() >= 1 && L.n(0) == 1 && !L.par.empty());
-  auto v{mk_var<T>(L.args[0].ids[0], L.par[0])};
-  mark(var_tok(v));
-  if (_op == "contmake")
-    return op_contmake<T>(L);
-  if (_op == "varmatch" || _op == "varapply")
-  {
-    need(L.args.size() == 1 && L.par.size() == 1);
-    g_log.clear();
-    T const r{with_cat<true>(
-        L.cat(0),
-        v,
-        [&](auto &&x)
-        {
-          if (_op == "varmatch")
-            return fcppt::variant::match(FWD(x), to_tok{}, to_tok{}, to_tok{});
-          return fcppt::variant::apply(to_tok{}, FWD(x));
-        })};
-    event_log const log{g_log};
-    slots_t sr;
-    sr.add(r);
-    return finish("-", sr.str(), {var_slots(v)}, log);
-  }
-  if (_op == "varapply2")
-  {
-    need(L.args.size() == 2 && L.n(1) == 1 && L.par.size() == 2);
-    auto u{mk_var<T>(L.args[1].ids[0], L.par[1])};
-    mark(var_tok(u));
-    g_log.clear();
-    T const r{with_cat<true>(
-        L.cat(0),
-        v,
-        [&](auto &&x)
-        {
-          return with_cat<true>(
-              L.cat(1),
-              u,
-              [&](auto &&y)
-              {
-                return fcppt::variant::apply(
-                    [](auto &&a, auto &&b)
-                    {
-                      b.read();
-                      return to_tok{}(FWD(a));
-                    },
-                    FWD(x),
-                    FWD(y));
-              });
-        })};
-    event_log const log{g_log};
-    slots_t sr;
-    sr.add(r);
-    return finish("-", sr.str(), {var_slots(v), var_slots(u)}, log);
-  }
-  if (_op == "vartoopt")
-  {
-    // par[1]: the alternative asked for (0 = T, 1 = w1<T>)
-    need(L.args.size() == 1 && L.par.size() == 2 && (L.par[1] == 0 || L.par[1] == 1));
-    g_log.clear();
-    slots_t sr;
-    std::string tag;
-    if (L.par[1] == 0)
-    {
-      opt<T> const r{with_cat<T::copyable>(L.cat(0), v, [](auto &&x) { return fcppt::variant::to_optional<T>(FWD(x)); })};
-      if (r.has_value())
-        sr.add(r.get_unsafe());
-      tag = opt_tag(r);
-    }
-    else
-    {
-      opt<w1<T>> const r{with_cat<T::copyable>(L.cat(0), v, [](auto &&x) { return fcppt::variant::to_optional<w1<T>>(FWD(x)); })};
-      if (r.has_value())
-        sr.add(r.get_unsafe().t);
-      tag = opt_tag(r);
-    }
-    event_log const log{g_log};
-    return finish(tag, sr.str(), {var_slots(v)}, log);
-  }
-  throw bad_op{};
-}
-
-// ---------------------------------------------------------------- tuple / array / record (sizes are template arguments: 0..3)
-
-template <std::size_t Max, typename F>
-std::string with_n(std::size_t const _n, F const &_f)
-{
-  need(_n <= Max);
-  switch (_n)
-  {
-  case 0:
-    return _f(std::integral_constant<std::size_t, 0>{});
-  case 1:
-    if constexpr (Max >= 1)
-      return _f(std::integral_constant<std::size_t, 1>{});
-    break;
-  case 2:
-    if constexpr (Max >= 2)
-      return _f(std::integral_constant<std::size_t, 2>{});
-    break;
-  case 3:
-    if constexpr (Max >= 3)
-      return _f(std::integral_constant<std::size_t, 3>{});
-    break;
-  default:
-    break;
-  }
-  throw bad_op{};
-}
-
-template <typename T, std::size_t>
-using rep = T;
-template <typename T, typename Seq>
-struct tup_of;
-template <typename T, std::size_t... I>
-struct tup_of<T, std::index_sequence<I...>>
-{
-  using type = fcppt::tuple::object<rep<T, I>...>;
-};
-template <typename T, std::size_t N>
-using tup_n = typename tup_of<T, std::make_index_sequence<N>>::type;
-template <typename T, std::size_t N>
-using arr_n = fcppt::array::object<T, N>;
-
-template <typename T, std::size_t N>
-tup_n<T, N> mk_tup(arg_t const &_a)
-{
-  need(_a.ids.size() == N);
-  return fcppt::tuple::init<tup_n<T, N>>([&_a]<std::size_t I>(std::integral_constant<std::size_t, I>) { return T{_a.ids[I]}; });
-}
-template <typename T, std::size_t N>
-arr_n<T, N> mk_arr(arg_t const &_a)
-{
-  need(_a.ids.size() == N);
-  return fcppt::array::init<arr_n<T, N>>([&_a]<std::size_t I>(std::integral_constant<std::size_t, I>) { return T{_a.ids[I]}; });
-}
-
-template <typename Tup, typename F, std::size_t... I>
-void tup_each(Tup &_t, F const &_f, std::index_sequence<I...>)
-{
-  (_f(fcppt::tuple::get<I>(_t)), ...);
-}
-template <typename... Ts>
-void mark(fcppt::tuple::object<Ts...> &_t)
-{
-  tup_each(_t, [](auto &e) { mark(e); }, std::index_sequence_for<Ts...>{});
-}
-template <typename... Ts>
-std::string tup_slots(fcppt::tuple::object<Ts...> const &_t)
-{
-  slots_t s;
-  tup_each(_t, [&s](auto const &e) { s.add(e); }, std::index_sequence_for<Ts...>{});
-  return s.str();
-}
-template <typename T, std::size_t N>
-void mark(arr_n<T, N> &_a)
-{
-  for (auto &e : _a.impl())
-    mark(e);
-}
-template <typename T, std::size_t N>
-std::string arr_slots(arr_n<T, N> const &_a)
-{
-  return slots(_a.impl());
-}
-
-template <typename T>
-std::string op_tuple(std::string const &_op, line_t const &L)
-{
-  if (_op == "tupmap")
-  {
-    need(L.args.size() == 1 && L.par.empty());
-    return with_n<3>(
-        L.n(0),
-        [&](auto N) -> std::string
-        {
-          auto t{mk_tup<T, decltype(N)::value>(L.args[0])};
-          mark(t);
-          g_log.clear();
-          auto const r{with_cat<true>(L.cat(0), t, [](auto &&x) { return fcppt::tuple::map(FWD(x), thru{}); })};
-          event_log const log{g_log};
-          return finish("-", tup_slots(r), {tup_slots(t)}, log);
-        });
-  }
-  if (_op == "tuppush")
-  {
-    need(L.args.size() == 2 && L.n(1) == 1 && L.par.empty());
-    return with_n<3>(
-        L.n(0),
-        [&](auto N) -> std::string
-        {
-          auto t{mk_tup<T, decltype(N)::value>(L.args[0])};
-          mark(t);
-          T e{L.args[1].ids[0]};
-          mark(e);
-          g_log.clear();
-          auto const r{with_cat<T::copyable>(
-              L.cat(0),
-              t,
-              [&](auto &&x)
-              { return with_cat<T::copyable>(L.cat(1), e, [&](auto &&y) { return fcppt::tuple::push_back(FWD(x), FWD(y)); }); })};
-          event_log const log{g_log};
-          slots_t se;
-          se.add(e);
-          return finish("-", tup_slots(r), {tup_slots(t), se.str()}, log);
-        });
-  }
-  if (_op == "tupconcat")
-  {
-    need(L.args.size() == 2 && L.par.empty());
-    return with_n<2>(
-        L.n(0),
-        [&](auto N1) -> std::string
-        {
-          return with_n<2>(
-              L.n(1),
-              [&](auto N2) -> std::string
-              {
-                auto a{mk_tup<T, decltype(N1)::value>(L.args[0])};
-                mark(a);
-                auto b{mk_tup<T, decltype(N2)::value>(L.args[1])};
-                mark(b);
-                g_log.clear();
-                // only the all-rvalue instantiation exists: the enable_if of tuple::concat applies is_object to `Tuples` with their references
-                need(L.cat(0) == 'r' && L.cat(1) == 'r');
-                auto const r{fcppt::tuple::concat(std::move(a), std::move(b))};
-                event_log const log{g_log};
-                return finish("-", tup_slots(r), {tup_slots(a), tup_slots(b)}, log);
-              });
-        });
-  }
-  throw bad_op{};
-}
-
-template <typename T>
-std::string op_array(std::string const &_op, line_t const &L)
-{
-  if (_op == "arrmap")
-  {
-    need(L.args.size() == 1 && L.par.empty());
-    return with_n<3>(
-        L.n(0),
-        [&](auto N) -> std::string
-        {
-          auto t{mk_arr<T, decltype(N)::value>(L.args[0])};
-          mark(t);
-          g_log.clear();
-          auto const r{with_cat<true>(L.cat(0), t, [](auto &&x) { return fcppt::array::map(FWD(x), thru{}); })};
-          event_log const log{g_log};
-          return finish("-", arr_slots(r), {arr_slots(t)}, log);
-        });
-  }
-  if (_op == "arrpush")
-  {
-    need(L.args.size() == 2 && L.n(1) == 1 && L.par.empty());
-    return with_n<3>(
-        L.n(0),
-        [&](auto N) -> std::string
-        {
-          auto t{mk_arr<T, decltype(N)::value>(L.args[0])};
-          mark(t);
-          T e{L.args[1].ids[0]};
-          mark(e);
-          g_log.clear();
-          auto const r{with_cat<T::copyable>(
-              L.cat(0),
-              t,
-              [&](auto &&x)
-              { return with_cat<T::copyable>(L.cat(1), e, [&](auto &&y) { return fcppt::array::push_back(FWD(x), FWD(y)); }); })};
-          event_log const log{g_log};
-          slots_t se;
-          se.add(e);
-          return finish("-", arr_slots(r), {arr_slots(t), se.str()}, log);
-        });
-  }
-  if (_op == "arrjoin2" || _op == "arrjoin3")
-  {
-    bool const three{_op == "arrjoin3"};
-    need(L.args.size() == (three ? 3U : 2U) && L.par.empty());
-    return with_n<2>(
-        L.n(0),
-        [&](auto N1) -> std::string
-        {
-          return with_n<2>(
-              L.n(1),
-              [&](auto N2) -> std::string
-              {
-                auto a{mk_arr<T, decltype(N1)::value>(L.args[0])};
-                mark(a);
-                auto b{mk_arr<T, decltype(N2)::value>(L.args[1])};
-                mark(b);
-                if (!three)
-                {
-                  g_log.clear();
-                  auto const r{with_cat<T::copyable>(
-                      L.cat(0),
-                      a,
-                      [&](auto &&x)
-                      { return with_cat<T::copyable>(L.cat(1), b, [&](auto &&y) { return fcppt::array::join(FWD(x), FWD(y)); }); })};
-                  event_log const log{g_log};
-                  return finish("-", arr_slots(r), {arr_slots(a), arr_slots(b)}, log);
-                }
-                // the third array has one element
-                need(L.n(2) == 1);
-                auto c{mk_arr<T, 1>(L.args[2])};
-                mark(c);
-                g_log.clear();
-                auto const r{with_cat<T::copyable>(
-                    L.cat(0),
-                    a,
-                    [&](auto &&x)
-                    {
-                      return with_cat<T::copyable>(
-                          L.cat(1),
-                          b,
-                          [&](auto &&y)
-                          {
-                            return with_cat<T::copyable>(
-                                L.cat(2), c, [&](auto &&z) { return fcppt::array::join(FWD(x), FWD(y), FWD(z)); });
-                          });
-                    })};
-                event_log const log{g_log};
-                return finish("-", arr_slots(r), {arr_slots(a), arr_slots(b), arr_slots(c)}, log);
-              });
-        });
-  }
-  if (_op == "arrfromrange")
-  {
-    // par[0]: the static size asked for (0..3)
-    need(L.args.size() == 1 && L.par.size() == 1 && L.par[0] >= 0);
-    auto v{mk_vec<T>(L.args[0])};
-    mark(v);
-    return with_n<3>(
-        static_cast<std::size_t>(L.par[0]),
-        [&](auto N) -> std::string
-        {
-          g_log.clear();
-          auto const r{with_cat<T::copyable>(L.cat(0), v, [](auto &&x) { return fcppt::array::from_range<decltype(N)::value>(FWD(x)); })};
-          event_log const log{g_log};
-          return finish(opt_tag(r), r.has_value() ? arr_slots(r.get_unsafe()) : "-", {slots(v)}, log);
-        });
-  }
-  throw bad_op{};
-}
-
-FCPPT_RECORD_MAKE_LABEL(la0);
-FCPPT_RECORD_MAKE_LABEL(la1);
-FCPPT_RECORD_MAKE_LABEL(la2);
-FCPPT_RECORD_MAKE_LABEL(lb0);
-FCPPT_RECORD_MAKE_LABEL(lb1);
-
-template <typename T, typename... Ls>
-using rec_of = fcppt::record::object<fcppt::record::element<Ls, T>...>;
-
-template <typename T, typename... Ls>
-rec_of<T, Ls...> mk_rec(arg_t const &_a)
-{
-  need(_a.ids.size() == sizeof...(Ls));
-  std::size_t i{0};
-  // braced init: evaluated left to right
-  return rec_of<T, Ls...>{(Ls{} = T{_a.ids[i++]})...};
-}
-template <typename T, typename... Ls>
-void mark(rec_of<T, Ls...> &_r)
-{
-  (mark(fcppt::record::get<Ls>(_r)), ...);
-}
-template <typename T, typename... Ls>
-std::string rec_slots(rec_of<T, Ls...> const &_r)
-{
-  slots_t s;
-  (s.add(fcppt::record::get<Ls>(_r)), ...);
-  return s.str();
-}
-
-template <typename T, typename... Ls>
-std::string do_recmap(line_t const &L)
-{
-  auto r0{mk_rec<T, Ls...>(L.args[0])};
-  mark<T, Ls...>(r0);
-  g_log.clear();
-  // only the rvalue instantiation exists: record::map_result applies element_vector to `Record` with its reference
-  need(L.cat(0) == 'r');
-  auto const r{fcppt::record::map(std::move(r0), thru{})};
-  event_log const log{g_log};
-  return finish("-", rec_slots<T, Ls...>(r), {rec_slots<T, Ls...>(r0)}, log);
-}
-
-// the result lists the labels in the order Rs...
-template <typename T, typename In, typename... Rs>
-std::string do_recperm(line_t const &L, In &_in, std::string (*_show)(In const &))
-{
-  g_log.clear();
-  auto const r{with_cat<T::copyable>(L.cat(0), _in, [](auto &&x) { return fcppt::record::permute<rec_of<T, Rs...>>(FWD(x)); })};
-  event_log const log{g_log};
-  return finish("-", rec_slots<T, Rs...>(r), {_show(_in)}, log);
-}
-
-template <typename T, typename... As>
-struct rec_left
-{
-  template <typename... Bs>
-  static std::string mul(line_t const &L)
-  {
-    auto a{mk_rec<T, As...>(L.args[0])};
-    mark<T, As...>(a);
-    auto b{mk_rec<T, Bs...>(L.args[1])};
-    mark<T, Bs...>(b);
-    g_log.clear();
-    auto const r{with_cat<T::copyable>(
-        L.cat(0),
-        a,
-        [&](auto &&x)
-        { return with_cat<T::copyable>(L.cat(1), b, [&](auto &&y) { return fcppt::record::multiply_disjoint(FWD(x), FWD(y)); }); })};
-    event_log const log{g_log};
-    return finish("-", rec_slots<T, As..., Bs...>(r), {rec_slots<T, As...>(a), rec_slots<T, Bs...>(b)}, log);
-  }
-  static std::string go(line_t const &L)
-  {
-    switch (L.n(1))
-    {
-    case 0:
-      return mul<>(L);
-    case 1:
-      return mul<lb0>(L);
-    case 2:
-      return mul<lb0, lb1>(L);
-    default:
-      throw bad_op{};
-    }
-  }
-};
-
-template <typename T>
-std::string op_record(std::string const &_op, line_t const &L)
-{
-  if (_op == "recmap")
-  {
-    need(L.args.size() == 1 && L.par.empty());
-    switch (L.n(0))
-    {
-    case 0:
-      return do_recmap<T>(L);
-    case 1:
-      return do_recmap<T, la0>(L);
-    case 2:
-      return do_recmap<T, la0, la1>(L);
-    case 3:
-      return do_recmap<T, la0, la1, la2>(L);
-    default:
-      throw bad_op{};
-    }
-  }
-  if (_op == "recpermute")
-  {
-    // par = the permutation: result position j takes the element of label par[j]
-    need(L.args.size() == 1 && L.par.size() == L.n(0));
-    std::string key;
-    for (int const p : L.par)
-      key += std::to_string(p);
-    switch (L.n(0))
-    {
-    case 0:
-    {
-      auto in{mk_rec<T>(L.args[0])};
-      return do_recperm<T, rec_of<T>>(L, in, &rec_slots<T>);
-    }
-    case 1:
-    {
-      need(key == "0");
-      auto in{mk_rec<T, la0>(L.args[0])};
-      mark<T, la0>(in);
-      return do_recperm<T, rec_of<T, la0>, la0>(L, in, &rec_slots<T, la0>);
-    }
-    case 2:
-    {
-      auto in{mk_rec<T, la0, la1>(L.args[0])};
-      mark<T, la0, la1>(in);
-      using in_t = rec_of<T, la0, la1>;
-      if (key == "01")
-        return do_recperm<T, in_t, la0, la1>(L, in, &rec_slots<T, la0, la1>);
-      if (key == "10")
-        return do_recperm<T, in_t, la1, la0>(L, in, &rec_slots<T, la0, la1>);
-      throw bad_op{};
-    }
-    case 3:
-    {
-      auto in{mk_rec<T, la0, la1, la2>(L.args[0])};
-      mark<T, la0, la1, la2>(in);
-      using in_t = rec_of<T, la0, la1, la2>;
-      auto const show{&rec_slots<T, la0, la1, la2>};
-      if (key == "012")
-        return do_recperm<T, in_t, la0, la1, la2>(L, in, show);
-      if (key == "021")
-        return do_recperm<T, in_t, la0, la2, la1>(L, in, show);
-      if (key == "102")
-        return do_recperm<T, in_t, la1, la0, la2>(L, in, show);
-      if (key == "120")
-        return do_recperm<T, in_t, la1, la2, la0>(L, in, show);
-      if (key == "201")
-        return do_recperm<T, in_t, la2, la0, la1>(L, in, show);
-      if (key == "210")
-        return do_recperm<T, in_t, la2, la1, la0>(L, in, show);
-      throw bad_op{};
-    }
-    default:
-      throw bad_op{};
-    }
-  }
-  if (_op == "recmuldisj")
-  {
-    need(L.args.size() == 2 && L.par.empty());
-    switch (L.n(0))
-    {
-    case 0:
-      return rec_left<T>::go(L);
-    case 1:
-      return rec_left<T, la0>::go(L);
-    case 2:
-      return rec_left<T, la0, la1>::go(L);
-    default:
-      throw bad_op{};
-    }
-  }
-  throw bad_op{};
-}
-
-// ---------------------------------------------------------------- grid (2 dimensions, storage order = x fastest)
-
-template <typename T>
-using grid2 = fcppt::container::grid::object<T, 2>;
-
-template <typename T>
-grid2<T> mk_grid(arg_t const &_a, int const _w, int const _h)
-{
-  need(_w >= 0 && _h >= 0 && static_cast<std::size_t>(_w * _h) == _a.ids.size());
-  using dim = typename grid2<T>::dim;
-  using pos = typename grid2<T>::pos;
-  return grid2<T>{
-      dim{static_cast<std::size_t>(_w), static_cast<std::size_t>(_h)},
-      [&](pos const p) { return T{_a.ids.at(p.y() * static_cast<std::size_t>(_w) + p.x())}; }};
-}
-template <typename T>
-void mark(grid2<T> &_g)
-{
-  for (auto &e : _g)
-    mark(e);
-}
-
-template <typename T>
-std::string op_grid(std::string const &_op, line_t const &L)
-{
-  using dim = typename grid2<T>::dim;
-  using pos = typename grid2<T>::pos;
-  if (_op == "gridmap")
-  {
-    need(L.args.size() == 1 && L.par.size() == 2);
-    auto g{mk_grid<T>(L.args[0], L.par[0], L.par[1])};
-    mark(g);
-    g_log.clear();
-    grid2<T> const r{with_cat<true>(L.cat(0), g, [](auto &&x) { return fcppt::container::grid::map(FWD(x), thru{}); })};
-    event_log const log{g_log};
-    return finish("-", slots(r), {slots(g)}, log);
-  }
-  if (_op == "gridapply2")
-  {
-    need(L.args.size() == 2 && L.par.size() == 4);
-    auto g{mk_grid<T>(L.args[0], L.par[0], L.par[1])};
-    mark(g);
-    auto h{mk_grid<T>(L.args[1], L.par[2], L.par[3])};
-    mark(h);
-    g_log.clear();
-    grid2<T> const r{with_cat<true>(
-        L.cat(0),
-        g,
-        [&](auto &&x)
-        { return with_cat<true>(L.cat(1), h, [&](auto &&y) { return fcppt::container::grid::apply(first_of_two{}, FWD(x), FWD(y)); }); })};
-    event_log const log{g_log};
-    return finish("-", slots(r), {slots(g), slots(h)}, log);
-  }
-  if (_op == "gridresize")
-  {
-    need(L.args.size() == 1 && L.par.size() == 4 && L.par[2] >= 0 && L.par[3] >= 0);
-    auto g{mk_grid<T>(L.args[0], L.par[0], L.par[1])};
-    mark(g);
-    std::size_t const nw{static_cast<std::size_t>(L.par[2])};
-    dim const nd{nw, static_cast<std::size_t>(L.par[3])};
-    g_log.clear();
-    grid2<T> const r{with_cat<T::copyable>(
-        L.cat(0),
-        g,
-        [&](auto &&x)
-        {
-          return fcppt::container::grid::resize(
-              FWD(x), nd, [nw](pos const p) { return T{1000 + static_cast<int>(p.y() * nw + p.x())}; });
-        })};
-    event_log const log{g_log};
-    return finish("-", slots(r), {slots(g)}, log);
-  }
-  throw bad_op{};
-}
-
-// ---------------------------------------------------------------- tree (root value + leaf children)
-
-template <typename T>
-using tree = fcppt::container::tree::object<T>;
-
-template <typename T>
-tree<T> mk_tree(arg_t const &_a)
-{
-  need(!_a.ids.empty());
-  tree<T> t{T{_a.ids[0]}};
-  for (std::size_t i = 1; i < _a.ids.size(); ++i)
-    t.push_back(T{_a.ids[i]});
-  return t;
-}
-template <typename T>
-void mark(tree<T> &_t)
-{
-  mark(_t.value());
-  for (auto &c : _t)
-    mark(c);
-}
-template <typename T>
-void tree_add(slots_t &_s, tree<T> const &_t)
-{
-  _s.add(_t.value());
-  for (auto const &c : _t)
-    tree_add(_s, c);
-}
-template <typename T>
-std::string tree_slots(tree<T> const &_t)
-{
-  slots_t s;
-  tree_add(s, _t);
-  return s.str();
-}
-
-template <typename T>
-std::string op_tree(std::string const &_op, line_t const &L)
-{
-  if (_op == "treector")
-  {
-    need(L.args.size() == 1 && L.n(0) == 1 && L.par.empty());
-    T x{L.args[0].ids[0]};
-    mark(x);
-    g_log.clear();
-    tree<T> const r{with_cat<T::copyable>(L.cat(0), x, [](auto &&v) { return tree<T>{FWD(v)}; })};
-    event_log const log{g_log};
-    slots_t sx;
-    sx.add(x);
-    return finish("-", tree_slots(r), {sx.str()}, log);
-  }
-  if (_op == "treepushval" || _op == "treepushtree")
-  {
-    need(L.args.size() == 2 && L.cat(0) == 'i' && L.n(1) == 1 && L.par.empty());
-    auto t{mk_tree<T>(L.args[0])};
-    mark(t);
-    if (_op == "treepushval")
-    {
-      T x{L.args[1].ids[0]};
-      mark(x);
-      g_log.clear();
-      switch (L.cat(1))
-      {
-      case 'r':
-        t.push_back(std::move(x));
-        break;
-      case 'l':
-        if constexpr (T::copyable)
-          t.push_back(x);
-        else
-          throw bad_op{};
-        break;
-      case 'c':
-        if constexpr (T::copyable)
-          t.push_back(std::as_const(x));
-        else
-          throw bad_op{};
-        break;
-      default:
-        throw bad_op{};
-      }
-      event_log const log{g_log};
-      slots_t sx;
-      sx.add(x);
-      return finish("-", "-", {tree_slots(t), sx.str()}, log);
-    }
-    need(L.cat(1) == 'r');
-    tree<T> c{T{L.args[1].ids[0]}};
-    mark(c);
-    g_log.clear();
-    t.push_back(std::move(c));
-    event_log const log{g_log};
-    return finish("-", "-", {tree_slots(t), tree_slots(c)}, log);
-  }
-  if (_op == "treerelease")
-  {
-    need(L.args.size() == 1 && L.cat(0) == 'i' && L.par.size() == 1 && L.par[0] >= 0 && static_cast<std::size_t>(L.par[0]) + 1 < L.n(0));
-    auto t{mk_tree<T>(L.args[0])};
-    mark(t);
-    g_log.clear();
-    tree<T> const r{t.release(std::next(t.begin(), L.par[0]))};
-    event_log const log{g_log};
-    return finish("-", tree_slots(r), {tree_slots(t)}, log);
-  }
-  if (_op == "treemap")
-  {
-    need(L.args.size() == 1 && L.par.empty());
-    auto t{mk_tree<T>(L.args[0])};
-    mark(t);
-    g_log.clear();
-    tree<T> const r{
-        with_cat<true>(L.cat(0), t, [](auto &&x) { return fcppt::container::tree::map<tree<T>>(FWD(x), [](T const &v) { return v.derive(1); }); })};
-    event_log const log{g_log};
-    return finish("-", tree_slots(r), {tree_slots(t)}, log);
-  }
-  throw bad_op{};
-}
-
-// ---------------------------------------------------------------- options: the constructors that take element values
-
-FCPPT_RECORD_MAKE_LABEL(lopt);
-
-// what a parser built from the element type stores is shown by parsing (outside the logged window)
-template <typename P>
-std::string parse_value(P const &_p, fcppt::args_vector _args)
-{
-  using result_type = fcppt::options::result_of<P>;
-  return fcppt::either::match(
-      _p.parse(fcppt::options::state{std::move(_args)}, fcppt::options::parse_context{_p.option_names()}),
-      [](fcppt::options::parse_error const &) { return std::string{"?"}; },
-      [](fcppt::options::state_with_value<result_type> const &_r) { return slot(fcppt::record::get<lopt>(_r.value())); });
-}
-
-template <typename T>
-std::string op_options(std::string const &_op, line_t const &L)
-{
-  namespace fo = fcppt::options;
-  if (_op == "optsflag")
-  {
-    need(L.args.size() == 2 && L.n(0) == 1 && L.n(1) == 1 && L.cat(0) == 'r' && L.cat(1) == 'r' && L.par.empty());
-    fo::active_value<T> a{T{L.args[0].ids[0]}};
-    fo::inactive_value<T> b{T{L.args[1].ids[0]}};
-    mark(a.get());
-    mark(b.get());
-    g_log.clear();
-    std::string res;
-    try
-    {
-      fo::flag<lopt, T> const f{
-          fo::optional_short_name{}, fo::long_name{fcppt::string{"flag"}}, std::move(a), std::move(b), fo::optional_help_text{}};
-      event_log const log{g_log};
-      if constexpr (T::copyable)
-        res = parse_value(f, fcppt::args_vector{fcppt::string{"--flag"}}) + "," + parse_value(f, fcppt::args_vector{});
-      else
-        res = "?";
-      slots_t sa, sb;
-      sa.add(a.get());
-      sb.add(b.get());
-      return finish("-", res, {sa.str(), sb.str()}, log);
-    }
-    catch (fcppt::options::exception const &)
-    {
-      event_log const log{g_log};
-      slots_t sa, sb;
-      sa.add(a.get());
-      sb.add(b.get());
-      return finish("exc:options", "-", {sa.str(), sb.str()}, log);
-    }
-  }
-  if (_op == "optsoption")
-  {
-    need(L.args.size() == 1 && L.n(0) <= 1 && L.cat(0) == 'r' && L.par.empty());
-    using dv = typename fo::option<lopt, T>::optional_default_value;
-    dv d{mk_opt<T>(L.args[0])};
-    mark(d.get());
-    g_log.clear();
-    fo::option<lopt, T> const o{fo::optional_short_name{}, fo::long_name{fcppt::string{"opt"}}, std::move(d), fo::optional_help_text{}};
-    event_log const log{g_log};
-    std::string res{"-"};
-    if constexpr (T::copyable)
-    {
-      if (L.n(0) == 1)
-        res = parse_value(o, fcppt::args_vector{});
-    }
-    else if (L.n(0) == 1)
-      res = "?";
-    return finish("-", res, {opt_slots(d.get())}, log);
-  }
-  throw bad_op{};
-}
-
-// ---------------------------------------------------------------- parse: results built from sub-results
-
-template <typename T>
-std::string op_parse(std::string const &_op, line_t const &L)
-{
-  namespace fp = fcppt::parse;
-  need(L.args.empty() && L.par.size() == 1 && L.par[0] >= 0 && L.par[0] <= 8);
-  std::string const input(static_cast<std::size_t>(L.par[0]), 'x');
-  int next{1000};
-  auto const one{[&next]
-                 {
-                   return fp::make_convert(
-                       fp::basic_char<char>{},
-                       [&next](char &&)
-                       {
-                         return T{next++};
-                       });
-                 }};
-  g_log.clear();
-  if (_op == "parseseq")
-  {
-    auto const p{one() >> one()};
-    auto const r{fp::parse_string(p, std::string{input})};
-    event_log const log{g_log};
-    slots_t sr;
-    if (r.has_success())
-    {
-      sr.add(fcppt::tuple::get<0>(r.get_success_unsafe()));
-      sr.add(fcppt::tuple::get<1>(r.get_success_unsafe()));
-    }
-    return finish(r.has_success() ? "S" : "F", sr.str(), {}, log);
-  }
-  if (_op == "parserep")
-  {
-    auto const p{*one()};
-    auto const r{fp::parse_string(p, std::string{input})};
-    event_log const log{g_log};
-    return finish(r.has_success() ? "S" : "F", r.has_success() ? slots(r.get_success_unsafe()) : "-", {}, log);
-  }
-  throw bad_op{};
-}
-
-// ---------------------------------------------------------------- dispatch
-
-template <typename T>
 std::string dispatch(std::string const &_op, line_t const &L)
 {
-  if (_op == "algmap")
-    return op_algmap<T>(L);
-  if (_op == "fold")
-    return op_fold<T>(L, false);
-  if (_op == "foldbrk")
-    return op_fold<T>(L, true);
-  if (_op == "mapcat")
-    return op_mapcat<T>(L);
-  if (_op == "mapopt")
-    return op_mapopt<T>(L);
-  if (_op == "reverse")
-    return op_reverse<T>(L);
-  if (_op == "join2")
-    return op_join<T>(L, 2);
-  if (_op == "join3")
-    return op_join<T>(L, 3);
-  if (_op == "popback")
-    return op_pop<T>(L, true);
-  if (_op == "popfront")
-    return op_pop<T>(L, false);
-  if (_op == "mrmap")
-    return op_mrmap<T>(L);
-  if (_op == "moveclear")
-    return op_moveclear<T>(L);
-  if (_op == "goi")
-    return op_goi<T>(L, false);
-  if (_op == "goiwr")
-    return op_goi<T>(L, true);
-  if (_op == "optmap" || _op == "optbind" || _op == "optfrom" || _op == "optalt" || _op == "optfilter" || _op == "opttocont")
-    return op_opt1<T>(_op, L);
-  if (_op == "optjoin")
-    return op_optjoin<T>(L);
-  if (_op == "optcombine" || _op == "optapply2")
-    return op_opt2<T>(_op, L);
-  if (_op == "optseq" || _op == "optcat")
-    return op_optvec<T>(_op, L);
-  if (_op == "moveif" || _op == "moveifrv")
-    return op_moveif<T>(_op, L);
-  if (_op == "eithmap" || _op == "eithmapfail" || _op == "eithbind" || _op == "eithmatch" || _op == "eithsuccopt" || _op == "eithfailopt")
-    return op_eith1<T>(_op, L);
-  if (_op == "eithfromopt")
-    return op_eithfromopt<T>(L);
-  if (_op == "eithjoin")
-    return op_eithjoin<T>(L);
-  if (_op == "eithapply2")
-    return op_eithapply2<T>(L);
-  if (_op == "eithseq")
-    return op_eithseq<T>(L);
-  if (_op == "eithfirst")
-    return op_eithfirst<T>(L);
-  if (_op == "contmake")
-    return op_contmake<T>(L);
-  if (_op == "varmatch" || _op == "varapply" || _op == "varapply2" || _op == "vartoopt")
-    return op_var<T>(_op, L);
-  if (_op == "tupmap" || _op == "tuppush" || _op == "tupconcat")
-    return op_tuple<T>(_op, L);
-  if (_op == "arrmap" || _op == "arrpush" || _op == "arrjoin2" || _op == "arrjoin3" || _op == "arrfromrange")
-    return op_array<T>(_op, L);
-  if (_op == "recmap" || _op == "recpermute" || _op == "recmuldisj")
-    return op_record<T>(_op, L);
-  if (_op == "gridmap" || _op == "gridapply2" || _op == "gridresize")
-    return op_grid<T>(_op, L);
-  if (_op == "treector" || _op == "treepushval" || _op == "treepushtree" || _op == "treerelease" || _op == "treemap")
-    return op_tree<T>(_op, L);
-  if (_op == "optsflag" || _op == "optsoption")
-    return op_options<T>(_op, L);
-  if (_op == "parseseq" || _op == "parserep")
-    return op_parse<T>(_op, L);
+  std::string out;
+  if (family_alg(_op, L, L.mo, out) || family_alg2(_op, L, L.mo, out) || family_opt(_op, L, L.mo, out) || family_eith(_op, L, L.mo, out) ||
+      family_tup(_op, L, L.mo, out) || family_rec(_op, L, L.mo, out) || family_grid(_op, L, L.mo, out) || family_tree(_op, L, L.mo, out) || family_opts(_op, L, L.mo, out) ||
+      family_parse(_op, L, L.mo, out))
+    return out;
   throw bad_op{};
 }
 
@@ -2164,15 +43,9 @@ std::string handle(std::vector<std::string> const &_t)
     }
     for (std::size_t i = 3 + n; i < _t.size(); ++i)
       L.par.push_back(std::stoi(_t[i]));
-#ifdef C05_NO_MOVE_ONLY
-    // diagnostic build (C05_NO_MOVE_ONLY=1 ./check.py C05): without the move-only twin, so that a change in /repo that stops the
-    // move-only instantiations from compiling can still be localised to concrete inputs with the copyable type
-    if (L.mo)
-      return "bad-op";
-    return dispatch<Tok>(_t[0], L);
-#else
-    return L.mo ? dispatch<MTok>(_t[0], L) : dispatch<Tok>(_t[0], L);
-#endif
+    // C05_NO_MOVE_ONLY (diagnostic build, C05_NO_MOVE_ONLY=1 ./check.py C05): the family units are built without the move-only
+    // twin, so that a change in /repo that stops the move-only instantiations from compiling can still be localised
+    return dispatch(_t[0], L);
   }
   catch (bad_op const &)
   {
